@@ -60,6 +60,9 @@ func runWSPool(x *X) {
 	c := x.C
 	maxIdle := c.Intn(4, "maxidle")
 	idleTimeout := time.Duration(1+c.Intn(90, "idle")) * time.Second
+	if c.Intn(10, "idle-zero") == 0 {
+		idleTimeout = 0 // nothing may be handed out once any time has passed
+	}
 	backends := []string{"be1", "be2"}[:1+c.Intn(2, "nbackends")]
 	nTasks := 1 + c.Intn(3, "tasks")
 	maxOps := 10
